@@ -356,15 +356,8 @@ theorem stitchGo_length (mIx : Nat) (rest : List Skel) : ∀ (i : Nat) (seen : L
 
 /-! ### topology under an injective remap -/
 
-theorem edges_remap {s : Skel} {m : List (Int × Int)} (hneg : ∀ a, a < 0 → remapId m a = a)
-    (hnn : ∀ a, 0 ≤ a → 0 ≤ remapId m a) :
-    edges (remapSkel m s).nodes = (edges s.nodes).map fun e => (remapId m e.1, remapId m e.2) := by
-  unfold edges remapSkel
-  simp only [List.filter_map, List.map_map]
-  congr 1
-  apply List.filter_congr
-  intro n _
-  simp only [Function.comp, isRootNode, remapNode]
+theorem isRootNode_remapNode {m : List (Int × Int)} (hneg : ∀ a, a < 0 → remapId m a = a)
+    (hnn : ∀ a, 0 ≤ a → 0 ≤ remapId m a) (n : Node) : isRootNode (remapNode m n) = isRootNode n := by
   have : (remapId m n.parent < 0) ↔ (n.parent < 0) := by
     constructor
     · intro h
@@ -373,6 +366,18 @@ theorem edges_remap {s : Skel} {m : List (Int × Int)} (hneg : ∀ a, a < 0 → 
       have := hnn n.parent (by omega)
       omega
     · intro h; rw [hneg _ h]; exact h
-  rw [decide_eq_decide.mpr this]
+  show decide (remapId m n.parent < 0) = decide (n.parent < 0)
+  exact decide_eq_decide.mpr this
+
+theorem edges_remap {s : Skel} {m : List (Int × Int)} (hneg : ∀ a, a < 0 → remapId m a = a)
+    (hnn : ∀ a, 0 ≤ a → 0 ≤ remapId m a) :
+    edges (remapSkel m s).nodes = (edges s.nodes).map fun e => (remapId m e.1, remapId m e.2) := by
+  unfold edges remapSkel
+  simp only [List.filter_map, List.map_map]
+  congr 1
+  apply List.filter_congr
+  intro n _
+  show (!isRootNode (remapNode m n)) = !isRootNode n
+  rw [isRootNode_remapNode hneg hnn]
 
 end Navis.Heal
